@@ -156,6 +156,8 @@ def load_all_ways(text, fail):
             "Atoms.load(pathlib)": lambda: Atoms.load(pathlib.Path(p)),
             "Atoms.load(file,'cml')": lambda: _with_open(p, lambda fh: Atoms.load(fh, filetype="cml")),
             "Atoms.load(StringIO,'cml')": lambda: Atoms.load(io.StringIO(text), filetype="cml"),
+            "Atoms.load(path named .xml,'cml')": lambda: Atoms.load(_copy_as(p, "m.xml"), filetype="cml"),
+            "Atoms.load(path named .cif,'cml')": lambda: Atoms.load(_copy_as(p, "m.cif"), filetype="cml"),
         }
         for how, fn in ways.items():
             try:
@@ -167,6 +169,12 @@ def load_all_ways(text, fail):
     finally:
         pass
     return res
+
+
+def _copy_as(p, name):
+    q = os.path.join(os.path.dirname(p), name)
+    shutil.copyfile(p, q)
+    return q
 
 
 def _with_open(p, fn):
